@@ -380,6 +380,14 @@ func (s *session) SignalConnectionClose(params connection.DisconnectParams) {
 		}
 
 		if willIn == 0 {
+			// a Will is published like a PUBLISH of its client: with RETAIN set it is also stored as
+			// the retained message of its topic (see SignalPublish)
+			if s.will.Retain() {
+				if err := s.messenger.Retain(s.will); err != nil {
+					s.log.Error("Retain will message", zap.String("ClientID", s.id), zap.Error(err))
+				}
+			}
+
 			if err := s.messenger.Publish(s.will); err != nil {
 				s.log.Error("Publish will message", zap.String("ClientID", s.id), zap.Error(err))
 			}
